@@ -751,11 +751,13 @@ Inductive Gone : nat -> Prop :=
 | G_ref r m : Gone m -> manifest m = true -> In r G -> subject r = Some m ->
               is_tagged st0 r = false ->
               (forall p, In p G -> holds p r -> Gone p) -> Gone r
-| G_dang d : In d G -> is_tagged st0 d = false ->
+| G_dang d : In d G -> In d B -> is_tagged st0 d = false ->
              (exists p, In p G /\ In d (succ p)) ->
              (forall p, In p G -> In d (succ p) -> Gone p) -> Gone d.
 
-Hypothesis wf_sub : forall y, In y G -> In y B.
+(* graph nodes that are manifests (or have a subject) are stored; a layer/config may be a
+   stale graph node without content (after a Delete by its blob descriptor) *)
+Hypothesis wf_sub : forall y, In y G -> manifest y = true \/ subject y <> None -> In y B.
 Hypothesis auto_on : autogc st0 = true.
 Hypothesis x_in : In x B.
 
@@ -800,9 +802,10 @@ Record DInv (st : state) (queue seen proc pending : list nat) : Prop := {
   di_pend : forall r, In r pending -> waiting proc r;
   di_blocked : queue = [] -> forall r, In r pending -> ~ In r seen ->
                exists p, In p G /\ holds p r /\ ~ In p seen;
-  di_dang : forall d, In d G -> is_tagged st0 d = false ->
+  di_dang : forall d, In d G -> In d B -> is_tagged st0 d = false ->
                       (exists p, In p G /\ In d (succ p)) ->
-                      (forall p, In p G -> In d (succ p) -> In p proc) -> In d seen }.
+                      (forall p, In p G -> In d (succ p) -> In p proc) -> In d seen;
+  di_seenB : forall y, In y seen -> In y B }.
 
 Lemma tagged_same st proc y :
   idx_rel (idx st) proc -> ~ In y proc -> is_tagged st y = is_tagged st0 y.
@@ -860,7 +863,7 @@ Proof.
       { rewrite Hseen in Hnd. apply NoDup_remove_2 in Hnd. intro H. apply Hnd.
         apply in_or_app. now left. }
       assert (Hh_B : In h B).
-      { destruct (di_sub _ _ _ _ _ I h Hh_seen) as [->|H]; [assumption|now apply wf_sub]. }
+      { now apply (di_seenB _ _ _ _ _ I). }
       assert (Hh_b : memb h (blobs st) = true).
       { apply memb_In. apply (di_b _ _ _ _ _ I). split; assumption. }
       cbn [delete_loop]. unfold delete_one. rewrite Hh_b. rewrite (di_a _ _ _ _ _ I).
@@ -961,19 +964,20 @@ Proof.
             apply (di_g _ _ _ _ _ I) in Hg. tauto.
         - simpl. split; [tauto|]. intros [H _]. discriminate. }
       assert (Hdang : forall d, In d dang' <->
-                In d (danglings succ (gnodes st) h) /\ is_tagged st0 d = false).
+                In d (danglings succ (gnodes st) h) /\ is_tagged st0 d = false /\ In d B).
       { intro d. unfold dang'. rewrite filter_In, andb_true_iff, negb_true_iff, memb_In.
         assert (Hfacts : In d (danglings succ (gnodes st) h) ->
-                         ~ In d (proc ++ [h]) /\ In d (blobs st')).
+                         ~ In d (proc ++ [h]) /\ (In d (blobs st') <-> In d B)).
         { intro Hd. apply danglings_In in Hd as (_ & Hs & Hg & _). apply (di_g _ _ _ _ _ I) in Hg.
-          apply succ_lt in Hs. split.
-          - rewrite in_app_iff. simpl. intros [H|[H|[]]]; [tauto|lia].
-          - unfold st'. cbn [blobs]. apply removeb_In. split; [|lia].
-            apply (di_b _ _ _ _ _ I). split; [apply wf_sub|]; tauto. }
+          apply succ_lt in Hs.
+          assert (Hnp : ~ In d (proc ++ [h])) by (rewrite in_app_iff; simpl; intros [H|[H|[]]]; [tauto|lia]).
+          split; [exact Hnp|].
+          unfold st'. cbn [blobs]. rewrite removeb_In, (di_b _ _ _ _ _ I). split; [tauto|].
+          intro HB. split; [split; [assumption|tauto]|lia]. }
         split.
-        - intros (Hd & _ & Ht). split; [assumption|]. destruct (Hfacts Hd) as [Hp _].
+        - intros (Hd & Hb & Ht). destruct (Hfacts Hd) as [Hp HbB]. split; [assumption|]. split; [|now apply HbB].
           rewrite <- (tagged_same st' (proc ++ [h]) d Hidx'); assumption.
-        - intros (Hd & Ht). destruct (Hfacts Hd) as [Hp Hb]. repeat split; try assumption.
+        - intros (Hd & Ht & HB). destruct (Hfacts Hd) as [Hp HbB]. split; [assumption|]. split; [now apply HbB|].
           rewrite (tagged_same st' (proc ++ [h]) d Hidx'); assumption. }
       (* everything that waits after this step, before the pass over pending *)
       assert (Hwait1 : forall r, In r (pending ++ ord k refs) -> waiting (proc ++ [h]) r).
@@ -997,7 +1001,7 @@ Proof.
       assert (Hsound1 : forall y, In y seen1 -> Gone y).
       { intros y Hy. apply in_app_or in Hy as [Hy|Hy]; [now apply (di_sound _ _ _ _ _ I)|].
         apply Hfresh in Hy as [Hy _].
-        apply Hdang in Hy as [Hd Ht]. apply danglings_In in Hd as (Hhg & Hs & Hg & Hall).
+        apply Hdang in Hy as (Hd & Ht & HdB). apply danglings_In in Hd as (Hhg & Hs & Hg & Hall).
         apply (di_g _ _ _ _ _ I) in Hg as [Hg _]. apply (di_g _ _ _ _ _ I) in Hhg as [HhG _].
         apply G_dang; try assumption; [eauto|].
         intros p Hp Hps. destruct (in_dec Nat.eq_dec p proc) as [Hpp|Hpp].
@@ -1060,14 +1064,14 @@ Proof.
           apply Hrest in Hr as [_ (p & Hp & Hh & Hps)]. exists p. repeat split; try apply Hh.
           + apply Hg' in Hp. tauto.
           + rewrite Hre, app_nil_r. assumption.
-        - intros d Hd Ht Hex Hall.
+        - intros d Hd HdB Ht Hex Hall.
           destruct (in_dec Nat.eq_dec d seen) as [Hds|Hds];
             [apply in_or_app; left; apply in_or_app; now left|].
           assert (Hdp : ~ In d proc) by (intro Hp; apply Hds; now apply Hproc_seen).
           apply in_or_app. left. apply in_or_app.
           destruct (in_dec Nat.eq_dec h G) as [HhG|HhG].
           + destruct (in_dec Nat.eq_dec d (succ h)) as [Hsh|Hsh].
-            * right. apply Hfresh. split; [|assumption]. apply Hdang. split; [|assumption].
+            * right. apply Hfresh. split; [|assumption]. apply Hdang. split; [|split; assumption].
               apply danglings_In. repeat split; try assumption.
               -- apply (di_g _ _ _ _ _ I). tauto.
               -- apply (di_g _ _ _ _ _ I). tauto.
@@ -1078,7 +1082,13 @@ Proof.
               subst. contradiction.
           + left. apply (di_dang _ _ _ _ _ I); try assumption. intros p Hp Hps.
             specialize (Hall p Hp Hps). apply in_app_or in Hall as [H|[H|[]]]; [assumption|].
-            subst. contradiction. }
+            subst. contradiction.
+        - intros y Hy. apply in_app_or in Hy as [Hy|Hy].
+          + apply in_app_or in Hy as [Hy|Hy]; [now apply (di_seenB _ _ _ _ _ I)|].
+            apply Hfresh in Hy as [Hy _]. apply Hdang in Hy. tauto.
+          + apply Hready in Hy as [Hc _]. apply Hcand in Hc as [Hc _].
+            destruct (Hwait1 y Hc) as (HyG & _ & m & _ & _ & Hs). apply wf_sub; [assumption|].
+            right. congruence. }
       destruct (IH (S k) st' (q ++ fresh ++ ready) (seen1 ++ ready) (proc ++ [h]) rest I')
         as (st2 & proc2 & pend2 & H2 & I2).
       { rewrite app_length. simpl. lia. }
@@ -1100,13 +1110,14 @@ Proof.
   - intros r (_ & _ & m & [] & _).
   - intros r [].
   - discriminate.
-  - intros d Hd Ht (p & Hp & Hps) Hall. destruct (Hall p Hp Hps).
+  - intros d Hd HdB Ht (p & Hp & Hps) Hall. destruct (Hall p Hp Hps).
+  - intros y [<-|[]]. exact x_in.
 Qed.
 
 Lemma final_gone st' proc pend : DInv st' [] proc proc pend -> forall y, In y proc <-> Gone y.
 Proof.
   intros I y. split; [apply (di_sound _ _ _ _ _ I)|].
-  induction 1 as [|r m _ IHm Hman Hr Hs Ht _ IHh|d Hd Ht Hex _ IHp].
+  induction 1 as [|r m _ IHm Hman Hr Hs Ht _ IHh|d Hd HdB Ht Hex _ IHp].
   - apply (di_x _ _ _ _ _ I).
   - destruct (di_ref _ _ _ _ _ I r) as [H|H]; [|assumption|].
     + repeat split; try assumption. eauto.
@@ -1168,7 +1179,7 @@ Proof. destruct 1; auto. Qed.
 (* no surviving node lists a removed node: every holder of it is removed as well *)
 Lemma gone_holders y : Gone y -> y <> x -> forall p, In p G -> holds p y -> Gone p.
 Proof.
-  intros H Hne. destruct H as [|r m _ _ _ _ _ Hh|d _ _ _ Hall]; [congruence|exact Hh|].
+  intros H Hne. destruct H as [|r m _ _ _ _ _ Hh|d _ _ _ _ Hall]; [congruence|exact Hh|].
   intros p Hp Hh. apply Hall; [assumption|]. now apply entries_succ.
 Qed.
 
@@ -1236,6 +1247,15 @@ Qed.
 
 (* graph nodes are stored blobs: invariant of every history *)
 Definition wf (st : state) : Prop := forall y, In y (gnodes st) -> In y (blobs st).
+
+(* the weaker form the Delete theorems need: the graph nodes that are manifests or have a
+   subject are stored; a layer/config may be a stale graph node without content (after a Delete
+   by the blob descriptor Resolve(<digest>) returns) *)
+Definition wfm (st : state) : Prop :=
+  forall y, In y (gnodes st) -> manifest y = true \/ subject y <> None -> In y (blobs st).
+
+Lemma wf_wfm st : wf st -> wfm st.
+Proof. intros H y Hy _. now apply H. Qed.
 
 Lemma delete_loop_wf c ord : forall fuel k st queue seen pending,
   wf st -> wf (fst (delete_loop succ subject manifest c ord fuel k st queue seen pending)).
@@ -1876,6 +1896,86 @@ Proof.
   - cbn [pstep fst]. tauto.
 Qed.
 
+(* the weak well-formedness survives every operation, also a Delete by blob descriptor of a
+   plain leaf (no manifest, no subject) *)
+Definition plain_alt (o : pop) : Prop := forall n, o = PDeleteAlt n -> manifest n = false /\ subject n = None.
+
+Lemma delete_loop_wfm c ord : forall fuel k st queue seen pending,
+  wfm st -> wfm (fst (delete_loop succ subject manifest c ord fuel k st queue seen pending)).
+Proof.
+  induction fuel as [|f IH]; intros k st queue seen pending Hw; [exact Hw|].
+  cbn [delete_loop]. destruct queue as [|h q]; [exact Hw|].
+  unfold delete_one.
+  assert (Hw' : wfm {| blobs := removeb h (blobs st);
+                       idx := del_idx succ manifest st h;
+                       gnodes := removeb h (gnodes st);
+                       strays := strays st; autogc := autogc st |}).
+  { intros y Hy Hc. cbn [gnodes blobs] in *. apply removeb_In in Hy as [Hy Hn]. apply removeb_In. split; auto. }
+  destruct (memb h (blobs st)); [|exact Hw'].
+  apply IH. exact Hw'.
+Qed.
+
+Lemma pstep_inv2 kl p o :
+  plain_alt o ->
+  wfm (mem p) /\ no_stale (mem p) ->
+  wfm (mem (fst (pstep succ subject manifest cfg_fixed kl p o))) /\
+  no_stale (mem (fst (pstep succ subject manifest cfg_fixed kl p o))).
+Proof.
+  intros Halt [Hw Hn]. destruct o as [o| |b|early order k|bad|alt|order k].
+  6: { destruct (Halt alt eq_refl) as [Hm Hs]. cbn [pstep fst mem saved]. split.
+       - intros y Hy Hc. cbn [gnodes blobs] in *. apply removeb_In. split; [now apply Hw|].
+         intro E. subst. destruct Hc as [Hc|Hc]; congruence.
+       - intros t n H. cbn [idx] in H. apply filter_In in H as [H _]. now apply (Hn t n). }
+  6: { cbn [pstep].
+       destruct (gc_cancel_spec kl (fun _ => candidates (idx (mem p))) order k (mem p) ltac:(tauto))
+         as (sc & Ec & Ei & Eg & Hg & Hb & _).
+       rewrite Ec. cbn [fst mem saved]. split.
+       - apply wf_wfm. intros y Hy. apply Hg in Hy. apply Hb. split; [eapply Live_in; eauto|now left].
+       - intros t n H. rewrite Ei in H. exact (gc_no_stale kl _ (mem p) Hn t n H). }
+  - pose proof (step_no_stale kl (mem p) o Hn) as Hn'.
+    destruct o as [n|n t|t|n| |b|s| |]; cbn [pstep step] in *.
+    + unfold push in *. destruct (memb n (blobs (mem p))) eqn:E; cbn [fst mem saved] in *; [tauto|].
+      split; [|exact Hn']. intros y Hy Hc. cbn [gnodes blobs] in *.
+      destruct Hy as [->|Hy]; [now left|]. right. apply removeb_In in Hy as [Hy _]. now apply Hw.
+    + unfold tag in *. destruct (memb n (blobs (mem p))) eqn:E; cbn [fst mem saved] in *; [|tauto].
+      split; [|exact Hn']. intros y Hy Hc. cbn [gnodes blobs] in *.
+      destruct (manifest n); [|now apply Hw].
+      destruct Hy as [->|Hy]; [now apply memb_In|]. apply removeb_In in Hy as [Hy _]. now apply Hw.
+    + unfold untag in *. destruct (lookup (RTag t) (idx (mem p))); cbn [fst mem saved] in *; tauto.
+    + destruct (delete succ subject manifest cfg_fixed ord_id (mem p) n) as [m r] eqn:E. cbn [fst mem saved] in *.
+      split; [|exact Hn']. replace m with (fst (delete succ subject manifest cfg_fixed ord_id (mem p) n)) by now rewrite E.
+      unfold delete. now apply delete_loop_wfm.
+    + destruct (gc succ subject manifest cfg_fixed kl _ (mem p)) as [m r] eqn:E. cbn [fst mem saved] in *.
+      split; [|exact Hn']. replace m with (fst (gc succ subject manifest cfg_fixed kl (fun _ => candidates (idx (mem p))) (mem p))) by now rewrite E.
+      apply wf_wfm. apply gc_wf. tauto.
+    + cbn [fst mem saved] in *. tauto.
+    + cbn [fst mem saved] in *. tauto.
+    + cbn [fst mem]. split; [apply wf_wfm, reload_wf|apply reload_no_stale].
+    + cbn [fst mem]. split; [apply wf_wfm, reload_wf|apply reload_no_stale].
+  - cbn [pstep fst mem saved]. tauto.
+  - cbn [pstep fst mem]. tauto.
+  - destruct early; cbn [pstep]; [tauto|].
+    destruct (gc_cancel_spec kl (fun _ => candidates (idx (mem p))) order k (mem p) ltac:(tauto))
+      as (sc & Ec & Ei & Eg & Hg & Hb & _).
+    rewrite Ec. cbn [fst mem saved]. split.
+    + apply wf_wfm. intros y Hy. apply Hg in Hy. apply Hb. split; [eapply Live_in; eauto|now left].
+    + intros t n H. rewrite Ei in H. exact (gc_no_stale kl _ (mem p) Hn t n H).
+  - cbn [pstep fst]. tauto.
+Qed.
+
+Lemma prun_inv2 kl ops :
+  Forall plain_alt ops ->
+  let p := fold_left (fun p o => fst (pstep succ subject manifest cfg_fixed kl p o)) ops pinit in
+  wfm (mem p) /\ no_stale (mem p).
+Proof.
+  assert (H : forall p, Forall plain_alt ops -> wfm (mem p) /\ no_stale (mem p) ->
+     let q := fold_left (fun p o => fst (pstep succ subject manifest cfg_fixed kl p o)) ops p in
+     wfm (mem q) /\ no_stale (mem q)).
+  { induction ops as [|o ops IH]; intros p Hf Hp; [exact Hp|]. inversion Hf; subst. simpl.
+    apply IH; [assumption|]. now apply pstep_inv2. }
+  intro Hf. apply H; [exact Hf|]. split; [intros y []|intros t n []].
+Qed.
+
 Lemma prun_inv kl ops :
   Forall (fun o => forall n, o <> PDeleteAlt n) ops ->
   let p := fold_left (fun p o => fst (pstep succ subject manifest cfg_fixed kl p o)) ops pinit in
@@ -2109,7 +2209,7 @@ Qed.
 
 Lemma delete_exact_final : forall succ subject manifest,
   acyclic succ -> subject_listed succ subject ->
-  forall st x, wf st -> autogc st = true -> In x (blobs st) ->
+  forall st x, wfm subject manifest st -> autogc st = true -> In x (blobs st) ->
   forall ord, reorders ord ->
   exists st',
     delete succ subject manifest cfg_fixed ord st x = (st', Ok) /\
@@ -2151,7 +2251,7 @@ Qed.
 
 Lemma delete_terminates_final : forall succ subject manifest,
   acyclic succ -> subject_listed succ subject ->
-  forall st x, wf st -> autogc st = true -> In x (blobs st) ->
+  forall st x, wfm subject manifest st -> autogc st = true -> In x (blobs st) ->
   forall ord, reorders ord ->
   snd (delete succ subject manifest cfg_fixed ord st x) <> EHang.
 Proof.
@@ -2370,7 +2470,7 @@ Proof. split; [exact gc_saves_before_sweep_ok|split; [exact gc_tests_ctx_before_
 (* the outcome of Delete and of GC does not depend on Go's map iteration orders *)
 Lemma order_independent_final : forall succ subject manifest,
   acyclic succ -> subject_listed succ subject ->
-  (forall st x, wf st -> autogc st = true -> In x (blobs st) ->
+  (forall st x, wfm subject manifest st -> autogc st = true -> In x (blobs st) ->
      forall o1 o2, reorders o1 -> reorders o2 ->
      let a := fst (delete succ subject manifest cfg_fixed o1 st x) in
      let b := fst (delete succ subject manifest cfg_fixed o2 st x) in
@@ -2404,7 +2504,7 @@ Qed.
    under every GC, complete or cancelled, together with everything reachable from it *)
 Lemma tagged_kept_final : forall succ subject manifest,
   acyclic succ -> subject_listed succ subject ->
-  forall st n t, wf st -> In (RTag t, n) (idx st) -> In n (blobs st) ->
+  forall st n t, wfm subject manifest st -> In (RTag t, n) (idx st) -> In n (blobs st) ->
   (forall x ord, reorders ord -> x <> n ->
      let st' := fst (delete succ subject manifest cfg_fixed ord st x) in
      In n (blobs st') /\ In (RTag t, n) (idx st')) /\
@@ -2505,3 +2605,54 @@ Lemma delete_alt_stale_node :
   snd (pstep succ_w subject_w manifest_w cfg_fixed true (prun_w [PO (OPush 0); PO (OPush 1)]) (PDeleteAlt 0)) = Ok /\
   snd (pstep succ_w subject_w manifest_w cfg_fixed true p (PDeleteAlt 0)) = ENotFound.
 Proof. vm_compute. intuition discriminate. Qed.
+
+(* every history of the persistence layer - also with Deletes by blob descriptor of plain leaves -
+   reaches only states in which the Delete theorems apply *)
+Lemma phistories2_final : forall succ subject manifest,
+  acyclic succ -> subject_listed succ subject ->
+  forall kl ops, Forall (plain_alt subject manifest) ops ->
+  let p := fold_left (fun p o => fst (pstep succ subject manifest cfg_fixed kl p o)) ops pinit in
+  wfm subject manifest (mem p) /\
+  (forall n, is_tagged (mem p) n = true <-> exists t, In (RTag t, n) (idx (mem p))).
+Proof.
+  intros succ subject manifest H1 H2 kl ops Hf p.
+  destruct (prun_inv2 succ subject manifest H1 H2 kl ops Hf) as [Hw Hn]. fold p in Hw, Hn.
+  split; [exact Hw|]. intro n. now apply no_stale_tagged.
+Qed.
+
+Lemma wf_wfm_final : forall subject manifest st, wf st -> wfm subject manifest st.
+Proof. intros subject manifest st H. now apply wf_wfm. Qed.
+
+(* the Delete theorems in every state of every history of the persistence layer *)
+Lemma reachable_delete_final : forall succ subject manifest,
+  acyclic succ -> subject_listed succ subject ->
+  forall kl ops, Forall (plain_alt subject manifest) ops ->
+  let st := mem (fold_left (fun p o => fst (pstep succ subject manifest cfg_fixed kl p o)) ops pinit) in
+  (forall x ord, autogc st = true -> In x (blobs st) -> reorders ord ->
+     exists st',
+       delete succ subject manifest cfg_fixed ord st x = (st', Ok) /\
+       (forall y, In y (blobs st') <-> In y (blobs st) /\ ~ Gone succ subject manifest st x y) /\
+       (forall y, In y (gnodes st') <-> In y (gnodes st) /\ ~ Gone succ subject manifest st x y) /\
+       (forall t n, In (RTag t, n) (idx st') <-> In (RTag t, n) (idx st) /\ n <> x) /\
+       (forall r, ~ In (r, x) (idx st'))) /\
+  (forall n t x ord, In (RTag t, n) (idx st) -> In n (blobs st) -> reorders ord -> x <> n ->
+     let st' := fst (delete succ subject manifest cfg_fixed ord st x) in
+     In n (blobs st') /\ In (RTag t, n) (idx st')) /\
+  (forall x o1 o2, autogc st = true -> In x (blobs st) -> reorders o1 -> reorders o2 ->
+     let a := fst (delete succ subject manifest cfg_fixed o1 st x) in
+     let b := fst (delete succ subject manifest cfg_fixed o2 st x) in
+     (forall y, In y (blobs a) <-> In y (blobs b)) /\ (forall y, In y (gnodes a) <-> In y (gnodes b)) /\
+     (forall t n, In (RTag t, n) (idx a) <-> In (RTag t, n) (idx b))).
+Proof.
+  intros succ subject manifest H1 H2 kl ops Hf st.
+  destruct (phistories2_final succ subject manifest H1 H2 kl ops Hf) as [Hw _]. fold st in Hw.
+  split; [|split].
+  - intros x ord Ha Hx Ho.
+    destruct (delete_exact_final succ subject manifest H1 H2 st x Hw Ha Hx ord Ho)
+      as (s1 & E1 & B1 & G1 & _ & _ & T1 & N1 & _).
+    exists s1. split; [exact E1|]. split; [exact B1|]. split; [exact G1|]. split; [exact T1|exact N1].
+  - intros n t x ord Ht Hn Ho Hne.
+    exact (proj1 (tagged_kept_final succ subject manifest H1 H2 st n t Hw Ht Hn) x ord Ho Hne).
+  - intros x o1 o2 Ha Hx Ho1 Ho2.
+    exact (proj1 (order_independent_final succ subject manifest H1 H2) st x Hw Ha Hx o1 o2 Ho1 Ho2).
+Qed.
